@@ -123,6 +123,11 @@ def _run_task(args):
       for i in range(min(len(exp), len(res_pts))):
         if tuple(exp[i]) != tuple(res_pts[i][0]):
           raise RuntimeError('replay divergence at point %d' % i)
+    if not pfx:
+      # determinism guard: the default execution is run twice and must observe the same thing
+      res0 = fn(params, [], None)
+      if res0.get('outcome') != res.get('outcome') or [p[0] for p in res0['points']] != [p[0] for p in res_pts]:
+        raise RuntimeError('the default execution is not deterministic: %r vs %r' % (res.get('outcome'), res0.get('outcome')))
     if res.get('violations'):
       # a failing execution must fail identically when replayed
       res2 = fn(params, [p[1] for p in res_pts], [p[0] for p in res_pts])
